@@ -1,5 +1,6 @@
 import SfVerif.Model.Proto
 import SfVerif.Gen.Structure
+import SfVerif.Lemmas.Intern4
 /-! C13 — each invocation starts from a clean slate. -/
 namespace SfVerif.Props.C13
 open SfVerif SfVerif.Gen
@@ -38,6 +39,88 @@ theorem C13_like_fresh_thread (w : Nat) (t : Thread) (b : Bytes)
     (h : survivors t = survivors {}) (ops : List Op) :
     Thread.run w (t.step w (.init b)).1 ops = Thread.run w (({} : Thread).step w (.init b)).1 ops :=
   C13_new_invocation_independent_of_history w t {} b h ops
+
+/-- the operations that intern (all four forms) -/
+def interns : Op → Bool
+  | .intern _ | .internreq _ | .interncopy _ | .cached _ => true
+  | _ => false
+
+theorem istep_noop (st : IState) (op : Op) (h : interns op = false) : st.step op = st := by
+  cases op <;> first | rfl | simp [interns] at h
+
+theorem run_survivors (w : Nat) : ∀ (pre : List Op) (t : Thread), (∀ op ∈ pre, interns op = false) →
+    (Thread.run w t pre).1.istate = t.istate := by
+  intro pre
+  induction pre with
+  | nil => intro t _; rfl
+  | cons op rest ih =>
+    intro t h
+    show (Thread.run w (t.step w op).1 rest).1.istate = _
+    rw [ih _ (fun o ho => h o (List.mem_cons_of_mem _ ho)), Thread.step_istate,
+      istep_noop _ _ (h op List.mem_cons_self)]
+
+/-- **C13, every history that interns nothing**: after ANY history of protocol operations that
+    contains no interning operation — reads, writes finished, abandoned mid-container or rejected,
+    logs, typed (de)serialisation, earlier invocations — a new invocation behaves in every answer
+    and in its resulting state exactly as on a fresh thread (the hypothesis of
+    `C13_like_fresh_thread` discharged for the whole class, not by example) -/
+theorem C13_every_history_like_fresh_thread (w : Nat) (pre : List Op) (hp : ∀ op ∈ pre, interns op = false)
+    (b : Bytes) (ops : List Op) :
+    Thread.run w ((Thread.run w {} pre).1.step w (.init b)).1 ops =
+      Thread.run w (({} : Thread).step w (.init b)).1 ops := by
+  apply C13_like_fresh_thread
+  have h := run_survivors w pre {} hp
+  simp only [Thread.istate, IState.mk.injEq] at h
+  simp only [survivors, Prod.mk.injEq]
+  exact h
+
+
+
+theorem run_istate' (w : Nat) : ∀ (ops : List Op) (t : Thread),
+    (Thread.run w t ops).1.istate = t.istate.run ops := by
+  intro ops
+  induction ops with
+  | nil => intro t; rfl
+  | cons op rest ih =>
+    intro t
+    show (Thread.run w (t.step w op).1 rest).1.istate = (t.istate.step op).run rest
+    rw [ih, Thread.step_istate w t op]
+
+theorem irun_filter : ∀ (pre : List Op) (st : IState), st.run pre = st.run (pre.filter interns) := by
+  intro pre
+  induction pre with
+  | nil => intro st; rfl
+  | cons op rest ih =>
+    intro st
+    by_cases h : interns op = true
+    · rw [List.filter_cons_of_pos h]
+      show (st.step op).run rest = (st.step op).run _
+      exact ih _
+    · have h' : interns op = false := by simpa using h
+      rw [List.filter_cons_of_neg h]
+      show (st.step op).run rest = _
+      rw [istep_noop _ _ h']
+      exact ih _
+
+/-- **C13, every history whatever**: a new invocation after any history behaves, in every answer
+    to every later operation and in its resulting state, exactly as after the history's interning
+    operations alone — everything else the earlier invocations read, wrote or logged is gone;
+    only interned ids deliberately survive -/
+theorem C13_only_interning_survives (w : Nat) (pre : List Op) (b : Bytes) (ops : List Op) :
+    Thread.run w ((Thread.run w {} pre).1.step w (.init b)).1 ops =
+      Thread.run w ((Thread.run w {} (pre.filter interns)).1.step w (.init b)).1 ops := by
+  apply C13_new_invocation_independent_of_history
+  have h1 := run_istate' w pre {}
+  have h2 := run_istate' w (pre.filter interns) {}
+  rw [irun_filter] at h1
+  rw [← h2] at h1
+  simp only [Thread.istate, IState.mk.injEq] at h1
+  simp only [survivors, Prod.mk.injEq]
+  exact h1
+
+/-- non-vacuity: what is kept of a mixed history -/
+example : [Op.log 3 1, .intern #[1], .w false (.arr 2), .cached #[2], .root].filter interns = [.intern #[1], .cached #[2]] := by
+  rfl
 
 /-- regenerated obligation: both (re)initialisers replace the whole context by a freshly
     constructed one; natively exactly the interner is carried over, on Wasm nothing is, and the
